@@ -59,7 +59,7 @@ where
     /// Does the kind implement `ValueInput` (any/one_of/none_of/select/not/nested_delimiters)?
     const VALUE: bool = true;
     /// `any` / `one_of` / `none_of` / `select` leaves (need `ValueInput`)
-    fn value_leaf<ER: ErrK<'s, Self>>(g: &G) -> BP<'s, Self, ER> {
+    fn value_leaf<ER: ErrK<'s, Self>>(g: &G, _obs: bool) -> BP<'s, Self, ER> {
         panic!("{:?} is not supported on input kind {}", g.op, Self::NAME)
     }
     fn not_of<ER: ErrK<'s, Self>>(_p: BP<'s, Self, ER>) -> BP<'s, Self, ER> {
@@ -97,24 +97,78 @@ where
     }
 }
 
-pub fn value_leaf_impl<'s, I: Kind<'s> + ValueInput<'s>, ER: ErrK<'s, I>>(g: &G) -> BP<'s, I, ER>
+pub fn value_leaf_impl<'s, I: Kind<'s> + ValueInput<'s>, ER: ErrK<'s, I>>(g: &G, obs: bool) -> BP<'s, I, ER>
 where
     I::Span: Clone + 's,
 {
     let cs: Vec<char> = g.p.cs.clone();
+    let id = g.id;
+    // the token set in every container type the library accepts (`p.n` selects it)
+    macro_rules! set_leaf {
+        ($f:ident) => {{
+            let st: String = cs.iter().collect();
+            match g.p.n {
+                1 => $f(st).map(Val::Tok).boxed(),
+                2 => $f(intern(&st)).map(Val::Tok).boxed(),
+                3 => match cs.len() {
+                    1 => $f([cs[0]]).map(Val::Tok).boxed(),
+                    2 => $f([cs[0], cs[1]]).map(Val::Tok).boxed(),
+                    3 => $f([cs[0], cs[1], cs[2]]).map(Val::Tok).boxed(),
+                    _ => $f(cs).map(Val::Tok).boxed(),
+                },
+                4 => $f(cs.iter().copied().collect::<std::collections::BTreeSet<char>>()).map(Val::Tok).boxed(),
+                5 => $f(cs.iter().copied().collect::<std::collections::HashSet<char>>()).map(Val::Tok).boxed(),
+                6 if contiguous(&cs) => $f(*cs.iter().min().unwrap()..=*cs.iter().max().unwrap()).map(Val::Tok).boxed(),
+                _ => $f(cs).map(Val::Tok).boxed(),
+            }
+        }};
+    }
     match g.op {
         Op::Any => any().map(Val::Tok).boxed(),
-        Op::OneOf => one_of(cs).map(Val::Tok).boxed(),
-        Op::NoneOf => none_of(cs).map(Val::Tok).boxed(),
+        Op::OneOf => set_leaf!(one_of),
+        Op::NoneOf => set_leaf!(none_of),
+        Op::Select if obs => chumsky::primitive::select(move |c: char, e: &mut chumsky::input::MapExtra<'s, '_, I, Ex<ER>>| {
+            if cs.contains(&c) {
+                let ctx: Val = e.ctx().clone();
+                let st: &mut Insp = e.state();
+                Some(Val::pair(Val::Obs { id, n: st.n, h: st.h, ctx: Box::new(ctx) }, Val::Tok(c)))
+            } else {
+                None
+            }
+        })
+        .boxed(),
         Op::Select => chumsky::primitive::select(move |c: char, _e| if cs.contains(&c) { Some(Val::Tok(c)) } else { None }).boxed(),
         other => panic!("value_leaf on {:?}", other),
     }
 }
 
+/// Interned `&'static str` (bounded leak: one allocation per distinct string).
+pub fn intern(s: &str) -> &'static str {
+    use std::collections::HashMap;
+    use std::sync::{Mutex, OnceLock};
+    static POOL: OnceLock<Mutex<HashMap<String, &'static str>>> = OnceLock::new();
+    let mut m = POOL.get_or_init(|| Mutex::new(HashMap::new())).lock().unwrap();
+    if let Some(x) = m.get(s) {
+        return x;
+    }
+    let l: &'static str = Box::leak(s.to_string().into_boxed_str());
+    m.insert(s.to_string(), l);
+    l
+}
+
+fn contiguous(cs: &[char]) -> bool {
+    if cs.is_empty() {
+        return false;
+    }
+    let lo = *cs.iter().min().unwrap() as u32;
+    let hi = *cs.iter().max().unwrap() as u32;
+    (lo..=hi).all(|c| char::from_u32(c).map(|c| cs.contains(&c)).unwrap_or(false))
+}
+
 macro_rules! value_kind {
     () => {
-        fn value_leaf<ER: ErrK<'s, Self>>(g: &G) -> BP<'s, Self, ER> {
-            value_leaf_impl::<Self, ER>(g)
+        fn value_leaf<ER: ErrK<'s, Self>>(g: &G, obs: bool) -> BP<'s, Self, ER> {
+            value_leaf_impl::<Self, ER>(g, obs)
         }
         fn not_of<ER: ErrK<'s, Self>>(p: BP<'s, Self, ER>) -> BP<'s, Self, ER> {
             p.not().to(Val::Unit).boxed()
@@ -553,11 +607,13 @@ pub struct Opts {
     pub wrap: bool,
     /// ... and its slice (C07)
     pub slice: bool,
+    /// ... and an observation of the inspector state and the context at the node's end (C15, C18)
+    pub obs: bool,
 }
 
 impl Default for Opts {
     fn default() -> Self {
-        Opts { wrap: true, slice: false }
+        Opts { wrap: true, slice: false, obs: false }
     }
 }
 
@@ -652,6 +708,17 @@ where
 {
     let id = g.id;
     let inner = raw(g, env);
+    let inner = if env.o.wrap && env.o.obs {
+        inner
+            .map_with(move |v, e| {
+                let ctx: Val = e.ctx().clone();
+                let st: &mut Insp = e.state();
+                Val::pair(Val::Obs { id, n: st.n, h: st.h, ctx: Box::new(ctx) }, v)
+            })
+            .boxed()
+    } else {
+        inner
+    };
     if env.o.wrap && env.o.slice {
         I::capture::<ER>(id, inner)
     } else if env.o.wrap {
@@ -683,9 +750,15 @@ where
         Just => just(cs[0]).map(Val::Tok).boxed(),
         JustSeq => {
             let s: String = cs.iter().collect();
-            just(s).map(Val::Str).boxed()
+            let s2 = s.clone();
+            match g.p.n {
+                1 => just(intern(&s)).map(move |_| Val::Str(s2.clone())).boxed(),
+                2 => just(cs.clone()).map(move |_| Val::Str(s2.clone())).boxed(),
+                3 if cs.len() == 2 => just([cs[0], cs[1]]).map(move |_| Val::Str(s2.clone())).boxed(),
+                _ => just(s).map(Val::Str).boxed(),
+            }
         }
-        Any | OneOf | NoneOf | Select => I::value_leaf::<ER>(g),
+        Any | OneOf | NoneOf | Select => I::value_leaf::<ER>(g, env.o.wrap && env.o.obs),
         End => end().to(Val::Unit).boxed(),
         Empty => empty().to(Val::Unit).boxed(),
         Custom => {
@@ -810,9 +883,17 @@ where
             let itg = &g.kids[1];
             let item = node(&itg.kids[0], env);
             if g.p.ok {
+                let obs = env.o.wrap && env.o.obs;
                 with_iter!(itg, env, item, it => init
-                    .foldl_with(it, |acc: Val, x: Val, e| {
+                    .foldl_with(it, move |acc: Val, x: Val, e| {
                         let s = I::sp(&e.span());
+                        let acc = if obs {
+                            let ctx: Val = e.ctx().clone();
+                            let st: &mut Insp = e.state();
+                            Val::pair(Val::Obs { id, n: st.n, h: st.h, ctx: Box::new(ctx) }, acc)
+                        } else {
+                            acc
+                        };
                         Val::FoldW { lo: s.0, lo2: s.0, hi: s.1, acc: Box::new(acc), x: Box::new(x) }
                     })
                     .boxed())
@@ -825,9 +906,17 @@ where
             let item = node(&itg.kids[0], env);
             let last = kid!(1);
             if g.p.ok {
+                let obs = env.o.wrap && env.o.obs;
                 with_iter!(itg, env, item, it => it
-                    .foldr_with(last, |x: Val, acc: Val, e| {
+                    .foldr_with(last, move |x: Val, acc: Val, e| {
                         let s = I::sp(&e.span());
+                        let acc = if obs {
+                            let ctx: Val = e.ctx().clone();
+                            let st: &mut Insp = e.state();
+                            Val::pair(Val::Obs { id, n: st.n, h: st.h, ctx: Box::new(ctx) }, acc)
+                        } else {
+                            acc
+                        };
                         Val::FoldW { lo: s.0, lo2: s.0, hi: s.1, acc: Box::new(acc), x: Box::new(x) }
                     })
                     .boxed())
